@@ -21,6 +21,9 @@ RULE = (
     "evaluated under both runners; every raise must be CELEvalError, and str()/repr() of every raised library error must return a str. "
     "distinct_nontrivial = distinct inputs that are syntactically invalid or whose evaluation is an error."
 )
+TECHNIQUE = (
+    "runtime monitoring: exception-class monitor at compile/program/evaluate boundaries over mutated texts, ill-typed generated programs and complete function / operator x value-kind sweeps; str()/repr() of every raised error"
+)
 ASSUMPTIONS = [
     "CELSyntaxError/CELUnsupportedError count as 'other exception' (the statement names only the parse error and the evaluation error)",
     "a returned value that merely contains an error object is not judged here (C03 sees it)",
